@@ -1,0 +1,19 @@
+//go:build verif
+
+// Contracts for package pex, checked by /verif/govc (see /verif/DESIGN.md).
+// This file contains only comments: it adds no code to any build.
+
+package pex
+
+// ParseCompact: never panics for any data/flags; yields at most one peer per
+// record; allocates one table sized by the number of records.
+//@ func ParseCompact
+//@   requires len(data) <= 1<<30
+//@   alloc    [table] 40 * (len(data) / 6)
+//@   ensures  [count] len($r0) <= len(data)/6 && (ipv6 ==> len($r0) <= len(data)/18)
+//@   ensures  [fresh] $r0 == nil || fresh_($r0)
+//@   loop 1
+//@     invariant 0 <= i && i <= n && len(peers) <= i && cap(peers) == n && fresh_(peers) && peers != nil
+//@     invariant alloc_() <= 40*n
+//@     invariant n == len(data)/(l+2) && len(data)%(l+2) == 0 && (l == 4 || l == 16) && (ipv6 ==> l == 16)
+//@   props    C04 C05
